@@ -45,6 +45,38 @@ theorem bw_readback (pre : Bytes) (cs : List Call) (hsz : sizesOk cs) (hwf : wf 
     exact h2
   · rw [hinv.abs.file]; simp
 
+/-- **Read-back of every kept location.** `process_completed_block` keeps the location of every `LAST` call (inode
+block start) *and* of every fragment block (fragment table).  For every call sequence obeying `wf`: each `LAST`
+location holds the file's stored bytes, and the location returned for each stored call made outside every file
+(no `FIRST` since the last `LAST`, itself neither `FIRST` nor `LAST` — where the block processor writes its
+fragment blocks) holds that block's bytes, after all later appends and truncations (`claimsOf`, `holdsAll`).
+Locations of non-final calls *inside* a file are kept by nobody and may be cut. -/
+theorem bw_readback_all (pre : Bytes) (cs : List Call) (hsz : sizesOk cs) (hwf : wf false cs = true)
+    (s : State) (locs : List Nat) (hrun : run (init pre) cs = .ok (s, locs)) :
+    holdsAll s.file (claimsOf false [] cs) locs = true := by
+  obtain ⟨s', locs', ps, _, _, hr, hinv, hl, _⟩ := run_spec cs (Inv_init pre) hsz hwf
+  rw [hrun] at hr
+  cases hr
+  refine holdsAll_of _ cs false [] locs hl ?_ ?_
+  · intro rc hrc
+    exact HoldsIn_slice hinv.abs (hinv.recs rc (by simpa using hrc))
+  · intro r hr
+    exact HoldsIn_slice hinv.abs (hinv.loose r (by simpa using hr))
+
+/-- **Fragment blocks are never truncated away.** Under the protocol the block processor follows (`wfS`: `wf`, and a
+call flagged `SQFS_BLK_FRAGMENT_BLOCK` never falls between a `FIRST` and its `LAST` and carries neither — proved of
+the processor's call stream in `stream_wfS` below), the location returned for every stored fragment block — the
+one `sqfs_frag_table_set` records — holds the block's bytes at every later time. -/
+theorem bw_fragblocks_kept (pre : Bytes) (cs : List Call) (hsz : sizesOk cs) (hwf : wfS false cs = true)
+    (s : State) (locs : List Nat) (hrun : run (init pre) cs = .ok (s, locs)) :
+    fragBlocksOk s.file cs locs = true := by
+  obtain ⟨s', locs', ps, _, _, hr, hinv, hl, _⟩ := run_spec cs (Inv_init pre) hsz (wfS_wf cs false hwf)
+  rw [hrun] at hr
+  cases hr
+  refine fragBlocksOk_of _ cs false locs hl hwf ?_
+  intro r hr
+  exact HoldsIn_slice hinv.abs (hinv.loose r (by simpa using hr))
+
 /-- **Sharing is sound.** If two files were given the same location, the shorter one's bytes are a prefix of
 the longer one's; in particular two files of equal stored length that share a location are byte-identical.
 Equality of sizes and checksums alone never makes one file stand in for another. -/
@@ -131,6 +163,34 @@ example :
     wf false cs = false ∧
     (run (init []) cs).toOption.map (fun r => (r.2, r.1.file)) = some ([0, 0, 2, 0], [1, 2]) := by decide
 
+
+/-- `wfS` is needed for the fragment blocks (`wf` alone is not enough): a fragment block written *inside* a file
+(second file below: `FIRST [1,1]`, fragment block `[2,2]`, `LAST [3,3]`) is part of that file's run; when the
+file is found to equal the first one its three blocks are cut, the fragment block handed location 8 is gone
+and the next file is written over its slot.  `wf` holds, `wfS` does not, `fragBlocksOk` fails. -/
+example :
+    let cs : List Call := [ ⟨0, exFirst, [1, 1]⟩, ⟨0, 0, [2, 2]⟩, ⟨0, exLast, [3, 3]⟩,
+                            ⟨0, exFirst, [1, 1]⟩, ⟨0, Sqfs.Consts.blkFragmentBlock, [2, 2]⟩, ⟨0, exLast, [3, 3]⟩,
+                            ⟨0, exFirst ||| exLast, [9, 9]⟩ ]
+    wf false cs = true ∧ wfS false cs = false ∧
+    (run (init []) cs).toOption.map (fun r => (r.2, r.1.file, fragBlocksOk r.1.file cs r.2)) =
+      some ([0, 2, 0, 6, 8, 0, 6], [1, 1, 2, 2, 3, 3, 9, 9], false) := by decide
+
+/-- non-vacuity of `bw_fragblocks_kept` / `bw_readback_all`: fragment blocks between files (the second one equal
+to a block of the first file, same checksum), a file equal to the first one is shared and cut — the fragment
+blocks stay where they were put. -/
+def exCallsF : List Call :=
+  [ ⟨7, exFirst, [1, 1]⟩, ⟨7, exLast, [2, 2]⟩,
+    ⟨7, Sqfs.Consts.blkFragmentBlock, [2, 2]⟩,
+    ⟨7, exFirst, [1, 1]⟩, ⟨7, exLast, [2, 2]⟩,
+    ⟨7, Sqfs.Consts.blkFragmentBlock ||| Sqfs.Consts.blkIsCompressed, [5]⟩,
+    ⟨7, exFirst ||| exLast, [2, 2]⟩ ]
+
+example : wfS false exCallsF = true := by decide
+example : sizesOk exCallsF := by unfold sizesOk; decide
+example : (run (init [0xAA]) exCallsF).toOption.map (fun r => (r.2, r.1.file, fragBlocksOk r.1.file exCallsF r.2,
+      holdsAll r.1.file (claimsOf false [] exCallsF) r.2)) =
+    some ([1, 1, 5, 7, 1, 7, 3], [0xAA, 1, 1, 2, 2, 2, 2, 5], true, true) := by decide
 
 /-- The byte comparison is what carries the property: with `SQFS_BLOCK_WRITER_HASH_COMPARE_ONLY` (documented
 opt-out, never used by the tools) two different one-byte files with the same checksum are given the same location,
